@@ -526,6 +526,25 @@ func (env *Env) elabBinary(x *EBinary) SV {
 }
 
 func (env *Env) elabQuant(x *EQuant) SV {
+	// several alternative slice-index triggers: one quantifier per trigger (each gets its own
+	// absolute-index normalisation); for exists this is not meaningful
+	if x.Forall && len(x.Pats) > 1 {
+		all := true
+		for _, p := range x.Pats {
+			if len(p) != 1 {
+				all = false
+			}
+		}
+		if all {
+			var cs []Term
+			for _, p := range x.Pats {
+				y := *x
+				y.Pats = [][]Expr{p}
+				cs = append(cs, env.elabQuant(&y).t)
+			}
+			return env.boolSV(and(cs...))
+		}
+	}
 	n := env.sub()
 	var decls []string
 	var guards []Term
